@@ -48,6 +48,14 @@ def eval_in(store, x, fn=None, call_eval=None, depth=0):
         t = lv(x)
         if t in store:
             return store[t]
+        if k == "idx":
+            # element of a tracked constant array: evaluate the subscript
+            iv = eval_in(store, x["i"], fn, call_eval, depth + 1)
+            if iv is not None:
+                t2 = "%s[%d]" % (lv(x["b"]), iv)
+                if t2 in store:
+                    return store[t2]
+            return None
         if k == "ref" and x.get("dk") in ("slocal", "global") and "[" in (x.get("t") or ""):
             return symbol_id(x["n"])  # address of a static array: a symbolic non-zero constant
         return None
@@ -204,6 +212,12 @@ class AbsWalk:
 
     def _init_fields(self, base, ini, store):
         for name, val in ini["fs"]:
+            if str(name).isdigit():
+                # array initialiser: element constants
+                v = 0 if val is None else eval_in(store, val, self.fn, self.call_eval)
+                if v is not None and int(name) < 256:
+                    store["%s[%d]" % (base, int(name))] = v
+                continue
             t = "%s.%s" % (base, name)
             if t in self.tracked:
                 v = 0 if val is None else eval_in(store, val, self.fn, self.call_eval)
